@@ -84,10 +84,22 @@ def make_body(rng, st, short, header_pos, bom, with_decl):
         decl = rng.choice(st["shebangs"]) + f" D{nid()} declaration"
         items.append(("D", decl))
     old = []
-    if header_pos != "none":
+    if header_pos not in ("none", "top-trailing"):
         lines = [f"SPDX-FileCopyrightText: 2019 Old Holder{nid()}", "", "SPDX-License-Identifier: Apache-2.0"]
         old = [("H", ln) for ln in trees.comment_block(st, lines, multi=rng.random() < 0.3).split("\n")]
-    if header_pos == "top":
+    if header_pos == "top-trailing":
+        # a multi-line comment holding tags whose closing line goes on with real content: not a header the tool can
+        # replace; whatever it does, the content behind the end marker is not its to remove
+        s_, m_, e_ = st["multi"]
+        lines = [f"SPDX-FileCopyrightText: 2019 Old Holder{nid()}", "SPDX-License-Identifier: Apache-2.0"]
+        blk = trees.comment_block(st, lines, multi=True).split("\n")
+        blk[-1] = blk[-1] + f"K{nid()} content right behind the end marker"
+        if decl:
+            items.append(("B", ""))
+        items += [("A", ln) if ln.strip() else ("B", ln) for ln in blk]
+        for _ in range(rng.randint(1, 5)):
+            items.append(("A", f"K{nid()} code line = value"))
+    elif header_pos == "top":
         if decl:
             items.append(("B", ""))
         items += old + [("B", "")] + atoms(rng.randint(2, 7))
@@ -97,6 +109,11 @@ def make_body(rng, st, short, header_pos, bom, with_decl):
         items += pre + [("B", "")] + old + [("B", "")] + atoms(rng.randint(1, 5))
     else:
         items += atoms(rng.randint(0, 8))
+    if decl and rng.random() < 0.35:
+        # the very same line again further down (a here-document writing another script, an XML sample inside CDATA ...)
+        pos = rng.randint(min(len(items), 2), len(items))
+        if all(lab != "H" for lab, _ in items[pos - 1:pos + 1]):
+            items.insert(pos, ("A", decl))
     # a body must not end in a header/blank-only tail when it has a final-newline flag to test
     if not any(l == "A" for l, _ in items):
         items.append(("A", f"K{nid()} only line"))
@@ -228,7 +245,9 @@ def run_case(case, ctx):
             st = styles[short]
             eolname = rng.choice(["LF", "LF", "CRLF", "CR"])
             E = EOLS[eolname]
-            header_pos = rng.choice(["none", "none", "top", "middle"])
+            header_pos = rng.choice(["none", "none", "top", "middle", "top-trailing"])
+            if header_pos == "top-trailing" and not (st["multi"][0] and st["multi"][2]):
+                header_pos = "top"
             no_replace = rng.random() < 0.3
             bom = rng.random() < 0.15
             with_decl = rng.random() < 0.35
